@@ -51,6 +51,11 @@ def body(c):
         if r["cpu_count"] != g[0]["cpus"]:
             c.violation({"kind": "cpu_count", "affinity": job["aff"], "LOKY_MAX_CPU_COUNT": job["env"], "got": r["cpu_count"]},
                         "C15: cpu_count() = %d with %d usable CPUs (affinity) and LOKY_MAX_CPU_COUNT=%s; specification: %d" % (r["cpu_count"], job["aff"], job["env"] or "unset", g[0]["cpus"]), {})
+        # the count of physical cores cannot exceed the usable CPUs either (NJobs.tla: CpuAtLeastOne / Honours apply to it as an upper bound)
+        ph = r.get("cpu_count_physical")
+        if ph is not None and not (1 <= ph <= g[0]["cpus"]):
+            c.violation({"kind": "cpu_count_physical", "affinity": job["aff"], "LOKY_MAX_CPU_COUNT": job["env"], "got": ph},
+                        "C15: cpu_count(only_physical_cores=True) = %d with %d usable CPUs (affinity %d, LOKY_MAX_CPU_COUNT=%s)" % (ph, g[0]["cpus"], job["aff"], job["env"] or "unset"), {})
         for x, got in zip(g, r["rows"]):
             c.evaluations += 1; c.nontrivial.add(("table", x["aff"], x["env"], x["backend"], x["n"]))
             want = x["res"]
